@@ -87,6 +87,24 @@ def generate(batch: str, r: Rng, idx: int, tier: str) -> Dict[str, Any]:
         scn["expand"] = expand
         for xs, xn in expand:
             scn["watch"] = scn["watch"] + [[xs - 1, 3], [xs + xn - 2, 3]]
+        rq = r.child("queue-pressure")
+        if rq.chance(1, 6):
+            # queue pressure: several keys pressed and released quickly while the firmware never reads KIL, short
+            # debounce and a fast main timer (the Rust machine scans on MTI) — the event queue fills up to its capacity
+            # and the bundle is written with a full ring
+            keys = rq.sample(machine.all_key_codes(), 6)
+            t = rq.range(1, 4)
+            ev = []
+            for _ in range(2):
+                for kc in keys[:rq.range(3, 6)]:
+                    ev.append([t, "key", 1, kc])
+                    ev.append([t + rq.range(3, 7), "key", 0, kc])
+                    t += 1
+                t += rq.range(4, 9)
+            scn["ops"] = sorted([o for o in ev if o[0] < n - 1], key=lambda o: o[0])
+            scn["kb"].update({"press": 1, "release": 1})
+            scn["timer"] = {"enabled": True, "mti": 2, "sti": 0}
+            scn["queue_pressure"] = True
         scn["final_state"] = True
         scn["kind"] = "cross"
         scn["direction"] = direction
@@ -320,6 +338,11 @@ def _check_cross(scn: Dict[str, Any], hist: Dict[str, Any]) -> List[Dict[str, An
         return viols
     for dev in ("lcd", "timer", "imem", "kb"):
         a, b = hist["writer_final"].get(dev), hist["reader_final"].get(dev)
+        if dev == "kb" and d == "rs_to_py" and isinstance(a, dict) and isinstance(b, dict) and len(a.get("fifo") or []) > 7:
+            # the Python queue holds seven events, the Rust one eight: a full Rust ring arrives without its oldest entry
+            # (the queue's own overflow rule: only the oldest entries are ever dropped); everything else must be equal
+            a = dict(a)
+            a["fifo"] = list(a["fifo"])[-7:]
         if a != b:
             sub = _first_diff(a, b)
             V("cross_load", f"{dev}: {sub}", field=dev, sub=sub.split("=")[0][:40])
